@@ -422,6 +422,9 @@ func (self Node) Index(idx int) (v Node) {
 	}
 
 	s, e = it.Next(UseNativeSkipForGet)
+	if it.Err != nil {
+		return errNode(meta.ErrRead, "", it.Err)
+	}
 	v = self.slice(s, e, self.et)
 	return v
 }
